@@ -8,7 +8,8 @@ import cobs
 PARA_LINES = ['This program is free software', 'you can redistribute it and/or modify', 'it under the terms of the GNU GPL: v2', 'é ü non-ascii words',
               'See /usr/share/common-licenses/GPL-2', 'x', 'a  b', '(c) 2001', 'http://example.org:80/x', '-- dashes --']
 VERB_LINES = ['indented code', ' more indented', 'x = 1;', '. dot first', '.', '..', ' .']
-STATEMENTS = ['2001 Foo Bar', '2001-2003, 2005 Foo <f@x.org>', 'Foo Bar', '(C) 2001 X', '2001, Foo', '1999', '2001-2003 a b c d', 'Copyright Holder Inc.', '2001/2002 X']
+STATEMENTS = ['2001 Foo Bar', '2001-2003, 2005 Foo <f@x.org>', 'Foo Bar', '(C) 2001 X', '2001, Foo', '1999', '2001-2003 a b c d', 'Copyright Holder Inc.', '2001/2002 X',
+              'Copyright (c) 2004-2006 Joe Bloggs', '(C) Copyright IBM Corp. 2001', 'copyright 2001 x', '\u00a9 2019 Y', 'Copyright: 2001 Z']
 PATTERNS = ['*', 'src/*', 'debian/*', 'a.c', 'doc/*.txt', 'x?y']
 NAMES = ['GPL-2+', 'MIT', 'Apache-2.0', 'GPL-2+ with OpenSSL exception', 'public-domain', 'BSD-3-clause or GPL-2']
 FORMATS = ['https://www.debian.org/doc/packaging-manuals/copyright-format/1.0/', 'http://www.debian.org/doc/packaging-manuals/copyright-format/1.0/']
@@ -31,8 +32,10 @@ def block(rng, n=None):
     lines = []
     for i in range(n):
         r = rng.random()
-        if i == 0 or r < 0.6:
+        if (i == 0 and r < 0.75) or (i > 0 and r < 0.6):
             lines.append([0, rng.choice(PARA_LINES)])
+        elif i == 0:
+            lines.append([2, rng.choice(VERB_LINES)])    # a text that starts with a verbatim line
         elif r < 0.8:
             lines.append([1, ''])
         else:
